@@ -331,6 +331,10 @@ SPECIALS = [
     'Y = 1',
     'Y[1] = X + Y[-1]',
     'Y = Y',
+    '```\nself._Y[t] = self._Y[t] + 1.0\n```\nY = X\n```\nself._Y[t] = self._Y[t] + 1.0\n```',
+    '`self._Y[t] = self._Y[t] * 2`\n`self._Y[t] = self._Y[t] * 2`\nZ = Y',
+    'Y = {lam} * Y + (1 - {lam}) * (C + G)',
+    'K = K + I - {d} * K[-1]',
 ]
 
 
